@@ -303,9 +303,10 @@ func (th *Thread) ufBytes(name string, outLen int, in []*Term) []Value {
 	out := make([]Value, outLen)
 	for j := 0; j < outLen; j++ {
 		if j < ufHashBytes {
-			out[j] = ctx.UF(fmt.Sprintf("uf_%s_%d_%d", name, len(in), j), 8, in...)
 			if len(in) == 0 {
 				out[j] = ctx.Var(fmt.Sprintf("uf_%s_0_%d", name, j), 8)
+			} else {
+				out[j] = ctx.UF(fmt.Sprintf("uf_%s_%d_%d", name, len(in), j), 8, in...)
 			}
 		} else {
 			out[j] = ctx.Const(8, 0xA5)
